@@ -202,7 +202,7 @@ class ScopeExprGen:
     `env` (argument of the methods) is the list of names bound (as ints) around the position.
     All values are small ints / lists / dicts / sets of them; nothing raises."""
 
-    COMPS = ["list", "list", "list", "set", "dict", "gen", "gen"]
+    COMPS = ["list", "list", "list", "set", "dict", "dict", "gen"]
 
     def __init__(self, rng, globals_, fresh=None, p_shadow=0.55, budget=22, avoid_builtins=(), allow_walrus=True, p_nest=0.35):
         self.rng = rng
@@ -359,8 +359,9 @@ class ScopeExprGen:
         finally:
             self.no_walrus -= 1
 
-    def seq_expr(self, d, env, elem, as_list=False, sized=False):
-        """an iterable of `elem` ('int' | 'val'); `as_list`: a list; `sized`: something with len()"""
+    def seq_expr(self, d, env, elem, as_list=False, sized=False, must_use=()):
+        """an iterable of `elem` ('int' | 'val'); `as_list`: a list; `sized`: something with len();
+        `must_use`: variables of the enclosing comprehension - the element reads one of them (unless re-bound here)"""
         rng = self.rng
         self.budget -= 1
         if d <= 0 or self.budget <= 0 or self.no_scope:
@@ -387,7 +388,15 @@ class ScopeExprGen:
         targets = []
         outer_p = self.pending
         saved_p = [n for n in outer_p if n not in chosen]       # re-bound here: the outer binding is out of sight
-        first_it = self.iterable(d - 1, env)                    # the FIRST iterable belongs to the enclosing scope
+        first_it = None
+        v0 = plan[0][0]
+        if v0 in self.gnames and v0 not in env and v0 not in outer_p and rng.random() < 0.75:
+            # the idiom `for n in range(n)`: the name is a global in the iterable, the loop variable after it
+            g0 = self.globals[self.gnames.index(v0)]
+            first_it = "range(%s %% 3 + 1)" % g0.guse
+            self.tags.add("global_use")
+        if first_it is None:
+            first_it = self.iterable(d - 1, env)                # the FIRST iterable belongs to the enclosing scope
         self.pending = saved_p
         for k, (v, a) in enumerate(plan):
             later = [n for vv, aa in plan[k:] for n in (vv, aa) if n is not None and n not in targets]
@@ -432,7 +441,7 @@ class ScopeExprGen:
                 key = targets[-1]
                 body = "%s: %s" % (key, self.val_expr(d - 1, inner) if elem == "val" else self.int_expr(d - 1, inner))
             elif d - 1 >= 1 and self.budget > 0 and rng.random() < self.p_nest:
-                body = self.seq_expr(d - 1, inner, "int", as_list=True)
+                body = self.seq_expr(d - 1, inner, "int", as_list=True, must_use=list(self.comp_targets))
                 if elem == "int" or kind == "set":
                     body = "sum(%s)" % body
             elif elem == "int" or kind == "set":
@@ -442,6 +451,12 @@ class ScopeExprGen:
         finally:
             self.comp_targets = saved_t
             self.pending = outer_p
+        mu = [n for n in must_use if n not in chosen and n in env]
+        if mu and kind != "dict" and not any(re.search(r"\b%s\b" % re.escape(n), body) for n in mu):
+            # the element of a nested comprehension reads a variable of the enclosing one
+            n = rng.choice(mu)
+            body = "(%s + %s)" % (body, n) if (elem == "int" or kind == "set") else "[%s, %s]" % (body, n)
+            self.tags.add("inner_element_reads_outer_variable")
         if len(self.comp_targets) >= 1:
             self.tags.add("nested_comprehension")
             if len(self.comp_targets) >= 2:
